@@ -139,8 +139,22 @@ pub fn convert_bsei_stsei(
     let bsei_amount_with_fee: Uint128;
     if state.bsei_exchange_rate < threshold {
         let max_peg_fee = bsei_amount * recovery_fee;
-        let required_peg_fee = (total_bsei_supply + current_batch.requested_bsei_with_fee)
+        let peg_gap = (total_bsei_supply + current_batch.requested_bsei_with_fee)
             .checked_sub(state.total_bond_bsei_amount)?;
+        // The converted remainder leaves the bsei pool valued at the current (discounted) rate,
+        // so burning `bsei_amount` already closes part of the gap. To not push the backing above
+        // the claims, at least `bsei_amount - peg_gap` coins have to leave the pool, i.e. at least
+        // ceil((bsei_amount - peg_gap) / rate) tokens must be converted; only the rest can be fee.
+        let required_peg_fee = if bsei_amount > peg_gap {
+            let coins_to_move = bsei_amount.checked_sub(peg_gap)?;
+            let mut min_converted = decimal_division(coins_to_move, state.bsei_exchange_rate);
+            if state.bsei_exchange_rate.mul(min_converted) < coins_to_move {
+                min_converted += Uint128::new(1);
+            }
+            bsei_amount.saturating_sub(min_converted)
+        } else {
+            peg_gap
+        };
         let peg_fee = Uint128::min(max_peg_fee, required_peg_fee);
         bsei_amount_with_fee = bsei_amount.checked_sub(peg_fee)?;
     } else {
